@@ -232,5 +232,5 @@ func init() {
 	register(&Scenario{Prop: "C09", Name: "c09/1stream-allmodes", Quick: []Bound{{1, 0}}, Thorough: []Bound{{2, 0}}, Body: c09Body(1, sysModes)})
 	register(&Scenario{Prop: "C09", Name: "c09/waves-L6", Quick: []Bound{{0, 0}, {1, 0}}, Thorough: []Bound{{2, 0}}, Body: c09Waves(6, []sysMode{sysModes[0], sysModes[3]}), BudgetQ: 30})
 	register(&Scenario{Prop: "C09", Name: "c09/waves-L8", Quick: []Bound{}, Thorough: []Bound{{0, 0}, {1, 0}}, Body: c09Waves(8, sysModes[:1]), BudgetT: 200})
-	register(&Scenario{Prop: "C09", Name: "c09/2streams", Quick: []Bound{{1, 0}}, Thorough: []Bound{{2, 0}}, Body: c09Body(2, sysModes)})
+	register(&Scenario{Prop: "C09", Name: "c09/2streams", Quick: []Bound{{1, 0}}, Thorough: []Bound{{2, 0}}, Body: c09Body(2, sysModes), BudgetQ: 25})
 }
